@@ -380,6 +380,10 @@ func buildObj(s string, vars env) reflect.Value {
 	if t.kind == '$' {
 		return vars[t.name]
 	}
+	if t.kind == 'x' {
+		// a caller-owned byte slice (later statements hand the SAME slice on by `$name`)
+		return reflect.ValueOf(append([]byte(nil), t.bytes...))
+	}
 	if t.kind != 'o' {
 		panic("object term expected")
 	}
